@@ -20,7 +20,7 @@ RULE = ("random lint-clean blackbox-free acyclic circuits (1-6 inputs, 1-8 gates
 EXPLANATION = ("transform models written through the verified API model and tied to tx.py by graph equality; the property is decided per "
                "case by brute force of the definitions (evalc on the original circuit) against certified simulation of the recorded "
                "transform circuits and the recorded return values; descending search, flipped-node and xor-compare lemmas proved")
-SHARD = 8
+SHARD = 20            # 316 quick evaluations -> 16 shards = one wave on 16 cores; loading the .vo files costs ~3 s per shard
 HASHSEEDS = {"quick": [0, 1], "thorough": [0, 1, 2, 3]}
 EXC = ("ValueError", "KeyError", "IndexError", "StopIteration", "NotImplementedError")
 
@@ -188,7 +188,15 @@ def generate(rng, tier):
         if tier != "quick" or m != 6:
             out.append({"kind": "sv", "circuit": {"name": "top", "nodes": nodes2, "bbs": []}, "n": "g"})
         out.append({"kind": "inf", "circuit": {"name": "top", "nodes": nodes2, "bbs": []}, "n": "g"})
-    return out + rand_cases
+    # spread the (expensive) fixed shapes evenly so that no shard gets more than one or two of them
+    stride = max(1, len(rand_cases) // len(out))
+    mixed = []
+    fixed = list(out)
+    for k, c in enumerate(rand_cases):
+        if k % stride == 0 and fixed:
+            mixed.append(fixed.pop(0))
+        mixed.append(c)
+    return mixed + fixed
 
 
 # ---------------------------------------------------------------- implementation driver
